@@ -49,9 +49,35 @@ def genSetTarget {Obj Src Tgt : Type} (ops : ObjOps Obj Src Tgt) (sync : Obj →
   let self1 := (sync self0)
   self1
 
+def genHomogeneousCtor {n d : Nat} (setH : HObj n d → HMat d → Bool → Bool → HObj n d) (self : HObj n d) (hmatrix : HMat d) (copy skipchecks : Bool) : HObj n d :=
+  let self0 := self
+  let self1 := (setH self0 hmatrix copy skipchecks)
+  self1
+
+def genAffineCtor {n d : Nat} (setH : HObj n d → HMat d → Bool → Bool → HObj n d) (self : HObj n d) (hmatrix : HMat d) (copy skipchecks : Bool) : HObj n d :=
+  let self0 := (genHomogeneousCtor setH self hmatrix copy skipchecks)
+  self0
+
+def genSimilarityCtor {n d : Nat} (setH : HObj n d → HMat d → Bool → Bool → HObj n d) (self : HObj n d) (hmatrix : HMat d) (copy skipchecks : Bool) : HObj n d :=
+  let self0 := (genAffineCtor setH self hmatrix copy skipchecks)
+  self0
+
+def genTranslationCtor {n d : Nat} (setH : HObj n d → HMat d → Bool → Bool → HObj n d) (self : HObj n d) (translation : Vec d) (skipchecks : Bool) : HObj n d :=
+  let translation0 := translation
+  let hmatrix0 := (one : Mat ((vlen translation0) + (1)) ((vlen translation0) + (1)))
+  let hmatrix1 := (setTransCol hmatrix0 translation0)
+  let self0 := (genSimilarityCtor setH self hmatrix1 false skipchecks)
+  self0
+
+def genRotationCtor {n d : Nat} (setH : HObj n d → HMat d → Bool → Bool → HObj n d) (setRot : HObj n d → Mat d d → Bool → HObj n d) (self : HObj n d) (rotationmatrix : Mat d d) (skipchecks : Bool) : HObj n d :=
+  let hmatrix0 := (one : Mat ((rowsOf rotationmatrix) + (1)) ((rowsOf rotationmatrix) + (1)))
+  let self0 := (genSimilarityCtor setH self hmatrix0 false true)
+  let self1 := (setRot self0 rotationmatrix skipchecks)
+  self1
+
 def genTranslationInit {n d : Nat} (ext : Ext) (self : HObj n d) (source target : Mat n d) : HObj n d :=
   let self0 := (genAlignmentInit HObj.ops self source target)
-  let self1 := (HObj.setH self0 (translationH ((genPointCloudCentre target) - (genPointCloudCentre source))))
+  let self1 := (genTranslationCtor plainSetH self0 ((genPointCloudCentre target) - (genPointCloudCentre source)) false)
   self1
 
 def genTranslationSync {n d : Nat} (ext : Ext) (self : HObj n d) : HObj n d :=
@@ -84,7 +110,7 @@ def genAffineSetH {n d : Nat} (self : HObj n d) (value : HMat d) (copy skipcheck
 def genAffineInit {n d : Nat} (self : HObj n d) (source target : Mat n d) : Option (HObj n d) :=
   let self0 := (genAlignmentInit HObj.ops self source target)
   ((genAffineBuildH source target)).bind fun optimalh0 =>
-    let self1 := (genAffineSetH self0 optimalh0 false true)
+    let self1 := (genAffineCtor genAffineSetH self0 optimalh0 false true)
     let self0 := (HObj.ops.setTarget self1 target)
     some self0
 
@@ -119,7 +145,7 @@ def genRotationSetRotationMatrix {n d : Nat} (ext : Ext) (self : HObj n d) (valu
 
 def genRotationInit {n d : Nat} (ext : Ext) (self : HObj n d) (source target : Mat n d) (allowmirror : Bool) : HObj n d :=
   let self0 := (genAlignmentInit HObj.ops self source target)
-  let self1 := (genRotationSetRotationMatrix ext (HObj.setH self0 one) (genOptimalRotationMatrix ext source target allowmirror) false)
+  let self1 := (genRotationCtor plainSetH (genRotationSetRotationMatrix ext) self0 (genOptimalRotationMatrix ext source target allowmirror) false)
   let self0 := (HObj.ops.setTarget self1 target)
   let self1 := (HObj.setAllowMirror self0 allowmirror)
   self1
@@ -150,7 +176,7 @@ def genProcrustesAlignment {n d : Nat} (ext : Ext) (source target : Mat n d) (ro
 def genSimilarityInit {n d : Nat} (ext : Ext) (self : HObj n d) (source target : Mat n d) (rotation allowmirror : Bool) : HObj n d :=
   let self0 := (genAlignmentInit HObj.ops self source target)
   let x0 := (genProcrustesAlignment ext source target rotation allowmirror)
-  let self1 := (HObj.setH self0 x0)
+  let self1 := (genSimilarityCtor plainSetH self0 x0 false true)
   let self0 := (HObj.setRotation self1 rotation)
   let self1 := (HObj.setAllowMirror self0 allowmirror)
   self1
